@@ -1109,8 +1109,6 @@ Lemma run_one_owner s h : sinv s -> hist_ok h -> one_owner (fst (run dr nr sm (m
 Proof. intros SI H. apply oinv_state_one_owner. apply run_owner; [exact SI|exact H]. Qed.
 
 (* ---------- the step laws, read off the summary ---------- *)
-Definition row_modes (s : store) (u : N) := smode s u.
-
 (* a request by another user leaves the owner's stored row alone, unless it is that user's
    acceptance of a transfer *)
 Lemma step_owner_kept x fo : oinv_state sm x -> actor_ok (snd fo) -> fault_safe fo ->
